@@ -160,6 +160,42 @@ def entropy_provenance(b, bits):
 _MISSING = object()
 
 
+def _draw_interval(src, conds, bits):
+    """Interval of the integer draw `src` that the conditions leave: comparisons of the draw (or of its bit_length()) with
+    constants are read off; anything else is ignored (no restriction)."""
+    lo, hi = 0, (1 << bits) - 1
+
+    def apply(c, neg):
+        nonlocal lo, hi
+        if T.is_op(c, 'NOT') and len(c) == 3:
+            return apply(c[2], not neg)
+        if T.is_op(c, 'AND') and not neg:
+            for d in c[2:]:
+                apply(d, False)
+            return
+        if T.is_op(c, 'OR') and neg:
+            for d in c[2:]:
+                apply(d, True)
+            return
+        if T.is_op(c, 'LT') and len(c) == 4 and T.is_const(c[3]) and isinstance(c[3][1], int):
+            a, k = c[2], c[3][1]
+            if a == src:                      # src < k   /  not: src >= k
+                if not neg:
+                    hi = min(hi, k - 1)
+                else:
+                    lo = max(lo, k)
+            elif T.is_op(a, 'METHOD') and a[2] == src and a[3] == T.const('bit_length'):
+                # bit_length(src) < k  <=>  src < 2^(k-1)
+                if k >= 1:
+                    if not neg:
+                        hi = min(hi, (1 << (k - 1)) - 1)
+                    else:
+                        lo = max(lo, 1 << (k - 1))
+    for c in conds:
+        apply(c, False)
+    return lo, max(hi, lo - 1)
+
+
 def _param_default(fi, name):
     a = fi.node.args
     pos = list(a.posonlyargs) + list(a.args)
@@ -330,6 +366,18 @@ def run(ctx):
                     ob.require(fresh_ok(mn, bits), '%s: %d bits are drawn from the CSPRNG and serialised to %d bytes without masking, '
                                'shifting or arithmetic' % (nm, bits, bits // 8), fb.where, found=T.show(mn, maxdepth=6))
                     srcs = [x for x in T.walk(mn) if T.is_op(x) and x[1] in ('RANDBITS', 'RANDBYTES', 'RANDVAL', 'PRNG')]
+                    # "every one of the ENT bits, including the most significant one, varies": the draw that is used must not
+                    # have been *selected* by a test that cuts away a noticeable part of its range (rejection sampling with a
+                    # floor such as bit_length() >= 128 pins the top bit of a 128-bit draw).  Decided on the path conditions:
+                    # the interval of the draw they leave must still be (almost) all of [0, 2^bits).
+                    for src in [x for x in srcs if x[1] == 'RANDBITS']:
+                        lo_, hi_ = _draw_interval(src, list(cs) + list(known_at(f, cs)), bits)
+                        kept = hi_ - lo_ + 1
+                        ob.require(kept * (1 << 32) >= (1 << bits) * ((1 << 32) - 1),
+                                   '%s: the %d-bit draw is used only when it passes a test that excludes part of its range (the '
+                                   'conditions of this exit leave [%s, %s]): not every entropy bit varies freely (with a floor on '
+                                   'bit_length() the most significant bit is always 1)' % (nm, bits, hex(lo_), hex(hi_)), fb.where,
+                                   found=[T.show(c_, maxdepth=4) for c_ in cs if T.contains(c_, lambda y: y == src)][:3])
                     ob.require(len({x for x in srcs if x[1] != 'PRNG'}) == 1 and not any(x[1] in ('PRNG', 'RANDVAL') for x in srcs),
                                '%s: the sentence depends on exactly one draw from the CSPRNG and on nothing else that varies' % nm,
                                fb.where, found=[T.show(x, maxdepth=3) for x in srcs])
